@@ -459,4 +459,15 @@ pub fn run(r: &mut Runner) {
             }
         });
     }
+    {
+        let gs = crate::fx::generic_stream(if quick { 20000 } else { 2000000 }, 120, -1022, 1023);
+        let ngs = gs.len();
+        r.notes.push(format!("generic stream for text + serialize: {} operands of a fixed Weyl sequence (full-size mantissas in both words, exponents -1022..1023)", ngs));
+        r.par("generic stream: text + serialize", ngs.div_ceil(256), ngs as u64, |c, l| {
+            for i in (c * 256)..((c + 1) * 256).min(ngs) {
+                rec.record(l, (1u64 << 58) + (i * 2) as u64, judge_text(gs[i]));
+                rec.record(l, (1u64 << 58) + (i * 2 + 1) as u64, judge_ser(gs[i]));
+            }
+        });
+    }
 }
